@@ -173,6 +173,7 @@ func (r *Run) StartController() (*Controller, error) {
 		defer r.bmu.Unlock()
 		for _, o := range objs {
 			r.batchTaken[o]++
+			delete(r.notifyPending, o)
 		}
 	}
 	services.SimBatchDeliveredHook = func(objs []string) {
